@@ -27,7 +27,7 @@ func (propC18) ID() string { return "C18" }
 
 // function names for the function-table history: own names in several letter
 // cases plus two that collide with default functions (the default, added first, must win)
-var c18FnNames = []string{"Foo", "FOO", "foo", "bar_1", "Bar_1", "Max", "PI"}
+var c18FnNames = []string{"Foo", "FOO", "foo", "bar_1", "Bar_1", "Max", "PI", "Ticks", "sum", "Array"}
 
 var c18Names = []string{"a", "A", "b", "Bee", "bEE", "x1", "X1", "_v", "total", "TOTAL", "Total"}
 
@@ -75,7 +75,9 @@ func (propC18) Gen(r *Rand) *Plan {
 		n := r.Range(2, 12*r.Size())
 		var ops []Op
 		for i := 0; i < n; i++ {
-			switch r.Weighted([]int{6, 2, 3, 2, 1, 5, 2, 2, 1, 3}) {
+			switch r.Weighted([]int{6, 2, 3, 2, 1, 5, 2, 2, 1, 3, 1}) {
+			case 10: // remove by position, default functions included
+				ops = append(ops, Op{Op: "removefnidx", I: r.Intn(45), H: r.Intn(2)})
 			case 7:
 				ops = append(ops, Op{Op: "addfn", S: r.Pick(c18FnNames), H: r.Intn(2)})
 			case 8:
@@ -529,7 +531,8 @@ func c18Calculator(ops []Op, run *Run, out *Outcome) int {
 	curSimple := false
 	curUnknownFn := ""
 	haveExpr := false
-	curFn := ""                                 // function called by the current expression when it was set by callfn
+	defaultRemoved := false                      // a default function was removed from this calculator: generated expressions may now lack a function
+	curFn := ""                                  // function called by the current expression when it was set by callfn
 	fnKnown := func(string) bool { return true } // set below, once the function model exists
 	compareDefaults := func(i int, o Op) bool {
 		dv := calc.DefaultVariables()
@@ -557,6 +560,9 @@ func c18Calculator(ops []Op, run *Run, out *Outcome) int {
 	}
 	checkEval := func(i int, o Op, coll []c18Entry, res *variants.Variant, err error) bool {
 		miss := missing(coll)
+		if defaultRemoved && curFn == "" && ErrCode(err) == "FUNC_NOT_FOUND" {
+			return true // the generated expression may call a default function that this history removed
+		}
 		curUnknownFn := curUnknownFn
 		if curFn != "" && !fnKnown(curFn) {
 			curUnknownFn = curFn
@@ -609,27 +615,41 @@ func c18Calculator(ops []Op, run *Run, out *Outcome) int {
 	}
 	// two calculators are alive: their function tables must be independent
 	calc2 := calculator.NewExpressionCalculator()
-	fnModels := [2][]fnEntry{} // custom functions appended after the defaults, per calculator
-	var fnModel []fnEntry      // the model of the calculator an operation addresses
-	nextFn := 1000
-	isDefault := func(name string) bool {
+	fnModels := [2][]fnEntry{} // the whole function table per calculator: the 37 defaults (id 0), then custom ones
+	for w := 0; w < 2; w++ {
 		for _, d := range c08Names {
-			if strings.EqualFold(d, name) {
-				return true
+			fnModels[w] = append(fnModels[w], fnEntry{d, 0})
+		}
+	}
+	tableOK := func(i int, o Op) bool {
+		for w, c := range []*calculator.ExpressionCalculator{calc, calc2} {
+			all := c.DefaultFunctions().GetAll()
+			if len(all) != len(fnModels[w]) {
+				out.Violate("list-model", "C18/calc/function-table/"+o.Op, "op %d (%s %q): calculator %d has %d functions, model %d", i, o.Op, o.S, w, len(all), len(fnModels[w]))
+				return false
+			}
+			for j, f := range all {
+				if f.Name() != fnModels[w][j].name {
+					out.Violate("list-model", "C18/calc/function-table/"+o.Op, "op %d (%s %q): calculator %d function %d is %q, model %q", i, o.Op, o.S, w, j, f.Name(), fnModels[w][j].name)
+					return false
+				}
 			}
 		}
-		return false
+		return true
+	}
+	nextFn := 1000
+	// resolve: what calling name on calculator w must reach: (found, custom id or 0 for a default)
+	resolve := func(w int, name string) (bool, int) {
+		for _, f := range fnModels[w] {
+			if strings.EqualFold(f.name, name) {
+				return true, f.id
+			}
+		}
+		return false, 0
 	}
 	fnKnown = func(name string) bool {
-		if isDefault(name) {
-			return true
-		}
-		for _, f := range fnModels[0] {
-			if strings.EqualFold(f.name, name) {
-				return true
-			}
-		}
-		return false
+		ok, _ := resolve(0, name)
+		return ok
 	}
 	for i, o := range ops {
 		run.ResetOpSteps()
@@ -647,10 +667,30 @@ func c18Calculator(ops []Op, run *Run, out *Outcome) int {
 			c.DefaultFunctions().Add(&c18Fn{name: o.S, id: nextFn})
 			fnModels[which] = append(fnModels[which], fnEntry{o.S, nextFn})
 			changes++
-		case "removefn":
-			if isDefault(o.S) {
-				continue // keep the defaults in place: the model does not track them
+		case "removefnidx":
+			which := o.H & 1
+			c := calc
+			if which == 1 {
+				c = calc2
 			}
+			if len(fnModels[which]) == 0 {
+				continue
+			}
+			j := o.I % len(fnModels[which])
+			if j < 0 {
+				j = -j
+			}
+			c.DefaultFunctions().Remove(j)
+			if which == 0 && fnModels[which][j].id == 0 {
+				defaultRemoved = true
+			}
+			fnModels[which] = append(append([]fnEntry{}, fnModels[which][:j]...), fnModels[which][j+1:]...)
+			changes++
+			out.Probes["function_removed_by_index"]++
+			if !tableOK(i, o) {
+				return changes
+			}
+		case "removefn":
 			which := o.H & 1
 			c := calc
 			if which == 1 {
@@ -659,6 +699,9 @@ func c18Calculator(ops []Op, run *Run, out *Outcome) int {
 			c.DefaultFunctions().RemoveByName(o.S)
 			for j, f := range fnModels[which] {
 				if strings.EqualFold(f.name, o.S) {
+					if which == 0 && f.id == 0 {
+						defaultRemoved = true
+					}
 					fnModels[which] = append(append([]fnEntry{}, fnModels[which][:j]...), fnModels[which][j+1:]...)
 					changes++
 					break
@@ -669,7 +712,7 @@ func c18Calculator(ops []Op, run *Run, out *Outcome) int {
 				continue
 			}
 			args := "()"
-			if strings.EqualFold(o.S, "max") {
+			if strings.EqualFold(o.S, "max") || strings.EqualFold(o.S, "sum") {
 				args = "(1, 2)"
 			}
 			which := o.H & 1
@@ -678,7 +721,6 @@ func c18Calculator(ops []Op, run *Run, out *Outcome) int {
 				c = calc2
 				out.Probes["second_calculator_called"]++
 			}
-			fnModel = fnModels[which]
 			if err := c.SetExpression(o.S + args); err != nil {
 				out.Observations["setexpr_error"]++
 				if which == 0 {
@@ -690,34 +732,35 @@ func c18Calculator(ops []Op, run *Run, out *Outcome) int {
 				haveExpr, curVars, curSimple, curUnknownFn, curFn = true, nil, true, "", o.S
 			}
 			res, err := evalNoPanic(func() (*variants.Variant, error) { return c.Evaluate() }, out)
-			want := -1
-			for _, f := range fnModel {
-				if strings.EqualFold(f.name, o.S) {
-					want = f.id
-					break
-				}
-			}
+			found, want := resolve(which, o.S)
 			got := FromVariant(res)
 			switch {
-			case isDefault(o.S):
-				// the default function was added first and must win over any later custom one
+			case found && want == 0:
+				// a default function is first under that name: a custom one added later must not be reached
 				if err == nil && got.T == "Integer" && got.I >= 1000 {
 					out.Violate("first-added-wins", "C18/calc/function-shadowed-default", "op %d: %s%s evaluated to %s: a custom function added later was called instead of the default one", i, o.S, args, got)
 					return changes
 				}
+				if ErrCode(err) == "FUNC_NOT_FOUND" {
+					out.Violate("missing-function", "C18/calc/default-function-lost", "op %d: calculator %d no longer finds the default function %q although it was never removed from it: %q", i, which, o.S, ErrMessage(err))
+					return changes
+				}
 				out.Probes["default_function_wins_checked"]++
-			case want >= 0:
+			case found:
 				if err != nil || got.T != "Integer" || int(got.I) != want {
-					out.Violate("first-added-wins", "C18/calc/function-resolution", "op %d: %s() gives %s err %v; the first function added under that name (case-insensitively) returns %d; functions %v", i, o.S, got, err, want, fnModel)
+					out.Violate("first-added-wins", "C18/calc/function-resolution", "op %d: %s() on calculator %d gives %s err %v; the first function added under that name (case-insensitively) returns %d", i, o.S, which, got, err, want)
 					return changes
 				}
 				out.Probes["custom_function_resolved"]++
 			default:
 				if ErrCode(err) != "FUNC_NOT_FOUND" || !strings.Contains(strings.ToUpper(ErrMessage(err)), strings.ToUpper(o.S)) {
-					out.Violate("missing-function", "C18/calc/missing-function-not-reported", "op %d: no function %q exists (custom functions %v) but evaluation gave %s err %q", i, o.S, fnModel, got, ErrMessage(err))
+					out.Violate("missing-function", "C18/calc/missing-function-not-reported", "op %d: no function %q exists in calculator %d but evaluation gave %s err %q", i, o.S, which, got, ErrMessage(err))
 					return changes
 				}
 				out.Probes["func_not_found_named"]++
+			}
+			if !tableOK(i, o) {
+				return changes
 			}
 		case "setexpr":
 			err := calc.SetExpression(o.S)
